@@ -442,6 +442,132 @@ Definition json_status (sc : sconfig) (now : Z) (sy : sys) (c g : Z) (show_all :
   | Some (sy', None) => Some (sy', None)
   end.
 
+(* ====================================================================================================
+   The system as it really is read: /metrics and the status / lag endpoints get a group's status through the
+   evaluator's result cache (goswarm Simple as Burrow configures it; sequential behaviour, the concurrent one is C05's
+   subject: builder cache's Cache.v), and since cc5e0f6 the scrape removes the partition series of a group that the
+   status it has just read does not contain.
+     core/internal/evaluator/caching.go getConsumerStatus :117-171 (cache.Query), Configure :65-81 (expire-cache)
+     core/internal/httpserver/prometheus.go pruneConsumerPartitionMetrics, handlePrometheusMetrics (after cc5e0f6)
+   The cache runs on the REAL clock [rt]; storage and evaluation on the (virtual) clock [now].
+   ==================================================================================================== *)
+Definition is_part_of (c g : Z) (k : key) : bool :=
+  match k with KPart _ c' g' _ _ => (c' =? c) && (g' =? g) | _ => false end.
+
+(* pruneConsumerPartitionMetrics + the two Delete calls of the else branch: after the loop the partition series of the
+   group are exactly those the status calls for.  (The code keeps, per group, the set of partitions the last scrape wrote and
+   deletes those not written now; every partition series of the group in the registry is in that set, so this is the same.) *)
+Definition prune_group (c g : Z) (gs : gstatus) (reg : registry) : registry :=
+  reg_del (fun k => is_part_of c g k && match written c g gs k with None => true | Some _ => false end) reg.
+
+Definition set_group_p (prune : bool) (c g : Z) (reg : registry) (gs : gstatus) : registry :=
+  if prune then prune_group c g gs (set_group c g reg gs) else set_group c g reg gs.
+
+(* one cached answer: the result (None = the cached NOTFOUND error), the real time it was stored, and - ghost fields, not
+   used by any function below - the clock and the storage state of the fetch it came from *)
+Record centry := mkCentry { ce_res : option gstatus; ce_created : Z; ce_now : Z; ce_st : state }.
+Definition cache := list (Z * Z * centry).
+
+Fixpoint cache_get (ca : cache) (c g : Z) : option centry :=
+  match ca with
+  | [] => None
+  | (c', g', e) :: rest => if (c' =? c) && (g' =? g) then Some e else cache_get rest c g
+  end.
+
+(* IsExpiredAt: expired when rt is strictly after created + L; expire-cache = 0 turns the cache off (c3210ba) *)
+Definition ce_valid (L rt : Z) (e : centry) : bool := (0 <? L) && (rt <=? ce_created e + L).
+
+Record csys := mkCsys { cs_sys : sys; cs_cache : cache }.
+
+(* getConsumerStatus (ShowAll = true): a valid entry is answered without touching storage; otherwise fetch + evaluate + store *)
+Definition cstatus (sc : sconfig) (L rt now : Z) (cs : csys) (c g : Z) : option (csys * option gstatus) :=
+  let miss :=
+    match sys_status sc now (cs_sys cs) c g with
+    | None => None
+    | Some (sy', o) => Some (mkCsys sy' ((c, g, mkCentry o rt now (s_st (cs_sys cs))) :: cs_cache cs), o)
+    end in
+  match cache_get (cs_cache cs) c g with
+  | Some e => if ce_valid L rt e then Some (cs, ce_res e) else miss
+  | None => miss
+  end.
+
+Definition cgroup_step (prune : bool) (sc : sconfig) (L rt now c : Z) (cs : csys) (g : Z) : option csys :=
+  match cstatus sc L rt now cs c g with
+  | None => None
+  | Some (cs', None) => Some cs'
+  | Some (cs', Some gst) =>
+      Some (mkCsys (mkSys (s_st (cs_sys cs')) (set_group_p prune c g (s_reg (cs_sys cs')) gst)) (cs_cache cs'))
+  end.
+
+Fixpoint cscrape_groups (prune : bool) (sc : sconfig) (L rt now c : Z) (gs : list Z) (cs : csys) : option csys :=
+  match gs with
+  | [] => Some cs
+  | g :: rest =>
+      match cgroup_step prune sc L rt now c cs g with
+      | None => None
+      | Some cs' => cscrape_groups prune sc L rt now c rest cs'
+      end
+  end.
+
+Definition ccluster_step (prune : bool) (sc : sconfig) (L rt now : Z) (cs : csys) (c : Z) : option csys :=
+  match cscrape_groups prune sc L rt now c (cluster_groups (s_st (cs_sys cs)) c) cs with
+  | None => None
+  | Some cs1 =>
+      let st1 := s_st (cs_sys cs1) in
+      Some (mkCsys (mkSys st1 (scrape_topics st1 c (cluster_topics st1 c) (s_reg (cs_sys cs1)))) (cs_cache cs1))
+  end.
+
+Fixpoint cscrape_clusters (prune : bool) (sc : sconfig) (L rt now : Z) (cl : list Z) (cs : csys) : option csys :=
+  match cl with
+  | [] => Some cs
+  | c :: rest =>
+      match ccluster_step prune sc L rt now cs c with
+      | None => None
+      | Some cs' => cscrape_clusters prune sc L rt now rest cs'
+      end
+  end.
+
+(* GET /metrics as it is served: [prune] = false is the handler before cc5e0f6 *)
+Definition cscrape_gen (prune : bool) (sc : sconfig) (L rt now : Z) (cs : csys) : option csys :=
+  cscrape_clusters prune sc L rt now (keys (s_st (cs_sys cs))) cs.
+Definition cscrape := cscrape_gen true.
+Definition cscrape_v1 := cscrape_gen false.
+
+Inductive cop :=
+| CO (o : op)                    (* OScrape / OStatus go through the cache, everything else acts on storage + registry *)
+| CFlush.                        (* the evaluator is restarted: empty cache (what the probe's cold read phases do) *)
+
+Definition cstep_gen (prune : bool) (sc : sconfig) (L rt now : Z) (cs : csys) (o : cop) : option csys :=
+  match o with
+  | CFlush => Some (mkCsys (cs_sys cs) [])
+  | CO OScrape => cscrape_gen prune sc L rt now cs
+  | CO (OStatus c g) => match cstatus sc L rt now cs c g with Some (cs', _) => Some cs' | None => None end
+  | CO o' => match sys_step sc now (cs_sys cs) o' with Some sy' => Some (mkCsys sy' (cs_cache cs)) | None => None end
+  end.
+Definition cstep := cstep_gen true.
+
+(* a history: (real time, clock, what happens) *)
+Fixpoint crun_gen (prune : bool) (sc : sconfig) (L : Z) (cs : csys) (h : list (Z * Z * cop)) : option csys :=
+  match h with
+  | [] => Some cs
+  | (rt, now, o) :: rest =>
+      match cstep_gen prune sc L rt now cs o with
+      | Some cs' => crun_gen prune sc L cs' rest
+      | None => None
+      end
+  end.
+Definition crun := crun_gen true.
+
+Definition init_csys (clusters : list Z) : csys := mkCsys (init_sys clusters) [].
+
+(* the status / lag endpoints as served *)
+Definition cjson_status (sc : sconfig) (L rt now : Z) (cs : csys) (c g : Z) (show_all : bool) : option (csys * option gstatus) :=
+  match cstatus sc L rt now cs c g with
+  | None => None
+  | Some (cs', Some gs) => Some (cs', Some (if show_all then gs else filter_view gs))
+  | Some (cs', None) => Some (cs', None)
+  end.
+
 (* ---------- regenerated tables (translator/jsontags -> gen/JsonTags.v) ---------- *)
 (* a function of cluster / consumer / storage / httpserver that builds a StorageSetDeleteTopic / StorageSetDeleteGroup request:
    the Cluster / Group / Topic expressions of the literal and the httpserver.Delete*Metrics calls of the same function *)
